@@ -288,6 +288,9 @@ func (sg *specGen) expect(spec hcldec.Spec, b *gen.Body, labels []string) (cty.V
 		for _, a := range b.Attrs() {
 			if a.Name == s.Name {
 				v := sg.want[a]
+				if v == cty.NilVal {
+					return cty.NilVal, false // the expression fails to evaluate
+				}
 				cv, err := convert.Convert(v, s.Type)
 				if err != nil {
 					return cty.NilVal, false
@@ -362,6 +365,9 @@ func (sg *specGen) expect(spec hcldec.Spec, b *gen.Body, labels []string) (cty.V
 			}
 			m := map[string]cty.Value{}
 			for _, a := range blks[0].Body.Attrs() {
+				if sg.want[a] == cty.NilVal {
+					return cty.NilVal, false
+				}
 				cv, err := convert.Convert(sg.want[a], s.ElementType)
 				if err != nil {
 					return cty.NilVal, false
